@@ -15,7 +15,8 @@ RULE = ('Hypothesis **kern scores of C07\'s domain (kern-only, 1-3 spines, pick-
         '"\\n" and fragments without final newline; separator "" and fragments ending in a newline; separator "\\n" and '
         'fragments ending in a newline, i.e. blank lines between fragments; separator "" and a score text without final '
         'newline); a third of the scores keep a split open across barlines, so that a cut can fall inside a split '
-        'section; in half of the scores a spine may end early (a "*-" cell while the other spines go on); in half of the cases one measure of the score '
+        'section; in half of the scores signatures change in some spines only (inside a measure / directly after a barline), '
+        'so that the spines carry different numbers of signatures where a fragment starts; in half of the scores a spine may end early (a "*-" cell while the other spines go on); in half of the cases one measure of the score '
         'is written twice (literal repeat: two fragments can be equal strings) and the cut sets include the one that '
         'isolates both copies.  Thorough tier: EVERY set of <=5 cut '
         'positions x the four conventions for each document; quick tier: all single cuts, all pairs and 4 drawn larger '
@@ -34,7 +35,10 @@ CONV = [('\n', False), ('', True), ('\n', True), ('', 'all-but-last')]
 @st.composite
 def cases(draw):
     doc = draw(D.measure_documents(D.mprofile(max_measures=5, others=False, rejoin_before_bar=draw(st.integers(0, 2)) > 0,
-                                               partial_term=draw(st.booleans()))))
+                                               partial_term=draw(st.booleans()),
+                                               # signature changes in some spines only, inside a measure or directly after a
+                                               # barline: at a cut the spines then carry different numbers of signatures
+                                               sig_changes=draw(st.booleans()), sig_after_bar=draw(st.booleans()))))
     extra = [sorted(set(draw(st.lists(st.integers(0, 7), min_size=3, max_size=5)))) for _ in range(4)]
     return {'doc': doc, 'extra': extra, 'rot': draw(st.integers(0, 3)),
             'dup': draw(st.one_of(st.none(), st.integers(0, 4)))}
